@@ -80,15 +80,32 @@ def run_probe(ck, binp):
     for r in read_ndjson(outp):
         name = r.pop("probe", "?")
         if "error" in r:
+            if ck.violations:          # the code under test is already known to break a law; the probe failing is a consequence
+                ck.notes.append({"truth_probe_failed": name, "error": r["error"][:300]})
+                continue
             raise ToolError(f"truth probe {name}: {r['error']}")
         facts[name] = r
-    rt = facts.get("runtime_commit", {})
+    fc = facts.get("failed_commit", {})
+    if fc.get("failed_tx_emission_leaks_into_next_tick"):
+        ck.notes.append({"truth_observation": "a commit that fails after the transaction emitted (rule executor panics) leaves the emissions on the bus; "
+                                              "begin + commit of the NEXT transaction without an abort in between finalizes them into that tick "
+                                              "(not an order-dependence, hence not a C18 violation)", "probe": fc})
+    ot = facts.get("outside_tx", {})
+    if ot.get("abort_of_unknown_tx_wipes_open_tx_emissions"):
+        ck.notes.append({"truth_observation": "Engine::abort(tx) clears the bus and last_materialization whatever tx is, also for a TxId that is not live: "
+                                              "the open transaction loses its emissions and still commits", "probe": ot})
+    rt = facts.get("runtime_commit")
     slim = {"leg": "truth_probe"}
+    if rt is None:
+        return facts
     if rt.get("step_records") != 1:
         raise ToolError(f"truth probe: the runtime tick did not commit: {rt}")
     if not rt.get("recorded_equals_live"):
         ck.violation(P + "runtime_recorded_outputs_differ_from_live",
                      f"after a runtime tick entry.outputs != the worldline's last_materialization: {rt}", slim)
+    if not rt.get("engine_own_outputs_before", 1):
+        ck.notes.append({"truth_probe_inconclusive": "the plain engine tick before the runtime tick finalized no output, so the save/restore of the "
+                                                     "engine's own last_materialization around commit_with_state was not observable", "probe": rt})
     if not rt.get("engine_own_last_materialization_preserved"):
         ck.violation(P + "runtime_commit_clobbers_engine_last_materialization",
                      f"a runtime commit (commit_with_state) changed the engine's own last_materialization: {rt}", slim)
@@ -106,6 +123,8 @@ def one_tlc(cfg, timeout, export=True):
     if export and not res.violation:
         res.cases_path = os.path.join(WORK, "truth_" + cfg.replace(".cfg", "") + ".cases")
         res.n_cases = extract_cases(res.stdout_path, res.cases_path)
+        if os.path.getsize(res.stdout_path) > 200 << 20:        # the thorough cfgs print 0.3 - 1.4 GB; the cases file is kept
+            os.remove(res.stdout_path)
     return res
 
 
@@ -151,7 +170,6 @@ def run_leg(ck, binp, tier, replay=None):
             return
         runs.append((obj.get("cfg", "replay"), write_ndjson(os.path.join(WORK, "truth_replay.cases"), obj["cases"])))
     else:
-        probe = run_probe(ck, binp)
         only = os.environ.get("VERIF_TRUTH_ONLY")            # debugging aid: run the cfgs whose name contains this
         cfgs = [c for c in RUNS[tier] if not only or only in c]
         with concurrent.futures.ThreadPoolExecutor(max_workers=TLC_PAR) as ex:
@@ -225,6 +243,9 @@ def run_leg(ck, binp, tier, replay=None):
             mid = load_case(cin, n_here // 2)
             ck.sample({"truth_cfg": cfg, "path": mid["path"], "predicted": {k: mid["pred"][k] for k in ("lm", "frames", "receipt")}}, limit=6)
 
+    if not replay:
+        probe = run_probe(ck, binp)          # after the replay: a probe that cannot run on broken code must not mask the breach
+
     groups = 0
     for name, rel in rels.items():
         groups += len(rel.fwd)
@@ -251,6 +272,11 @@ def run_leg(ck, binp, tier, replay=None):
                 raise ToolError(f"truth: no exported transition ends with {need}: {last_ops}")
         if len(digests) < 4:
             raise ToolError(f"truth: only {len(digests)} distinct emissions digests")
+
+    for _, cin in runs:                       # the thorough cfgs leave 0.3 - 1.4 GB each; replay files carry their own cases
+        for path in (cin, cin.replace(".cases", ".results")):
+            if os.path.exists(path) and os.path.getsize(path) > 200 << 20:
+                os.remove(path)
 
     ck.cov["traces_validated_against_impl"] += total
     ck.cov["evaluations"] += total
